@@ -386,8 +386,9 @@ def option_sweep(ctx, part, d, rng, codegen, mods):
             sel = {k_: v for k_, v in list(mf.items())[:2]}
             o = {k: not BASE_OPTS[k]}
             dd = os.path.join(d, "m_%s_%s" % (mname, k))
+            fname = "x.cpp" if o.get("cpp") else "x.c"  # a C++ build names its source accordingly
             with quiet():
-                ok = lib_call(ctx, "generate_code", "cyecca.models.%s" % mname, lambda: (mod.generate_code(sel, filename="x.c", dest_dir=dd, **o), True)[1], not_implemented_ok=False)
+                ok = lib_call(ctx, "generate_code", "cyecca.models.%s" % mname, lambda: (mod.generate_code(sel, filename=fname, dest_dir=dd, **o), True)[1], not_implemented_ok=False)
             files = sorted(os.listdir(dd)) if os.path.isdir(dd) else []
             srcs = [f for f in files if f.endswith((".c", ".cpp"))]
             ctx.check("generation_succeeds_for_option_combination", "cyecca.models.%s" % mname, bool(ok) and len(srcs) >= 1, {"options": "%s=%d" % (k, o[k]), "files": files})
